@@ -190,26 +190,30 @@ theorem sliceIndices_nonneg (a b c : Option Int) (n : Nat)
       have hw : ¬ w < 0 := by simpa [optLt] using hb
       simp [stopN, hv, hw, cl]
 
-theorem islice_eq_slice (xs : List Int) (a b c : Option Int) (h : sliceListPath a b c = false) :
+theorem islice_eq_slice (xs : List Int) (a b c : Option Int) (h : sliceListPath a b c = false)
+    (hbig : (optGt a maxsize || optGt b maxsize || optGt c maxsize) = false) :
     islice xs a b c = Py.slice xs a b c := by
   unfold sliceListPath at h
   simp only [Bool.or_eq_false_iff] at h
   obtain ⟨⟨hc, ha⟩, hb⟩ := h
   have hstep : 1 ≤ c.getD 1 := optLt_false hc 1 (by omega)
   unfold islice
-  rw [ha, hb, hc]
+  rw [ha, hb, hc, hbig]
   simp only [Bool.or_self, Bool.false_eq_true, ↓reduceIte]
   unfold Py.slice
   rw [sliceIndices_nonneg a b c xs.length ha hb hc, islice_core xs _ _ _ (by omega)]
   rfl
 
 /-- `list(itertools.islice(L, k)) = L[:k]` -/
-theorem islice_take (L : List Int) (k : Nat) : islice L none (some (k : Int)) none = .ok (L.take k) := by
+theorem islice_take (L : List Int) (k : Nat) (hk : (k : Int) ≤ maxsize) :
+    islice L none (some (k : Int)) none = .ok (L.take k) := by
   unfold islice
   have h1 : optLt none 0 = false := rfl
   have h2 : optLt (some (k : Int)) 0 = false := by simp [optLt]
   have h3 : optLt none 1 = false := rfl
-  rw [h1, h2, h3]
+  have h4 : (optGt none maxsize || optGt (some (k : Int)) maxsize || optGt none maxsize) = false := by
+    simp [optGt]; omega
+  rw [h1, h2, h3, h4]
   simp only [Bool.or_self, Bool.false_eq_true, ↓reduceIte]
   congr 1
   apply List.ext_getElem?
